@@ -20,7 +20,7 @@ fn audit(src: &str, budget: u64) -> (Obs, Option<(String, String)>) {
     } else if o.heap.dead_in_result > 0 {
         Some(("result-not-live".into(), format!("{} object(s) of the returned result were already freed", o.heap.dead_in_result)))
     } else if o.heap.leaked > 0 {
-        Some(("leak:lost-object".into(), format!("{} of {} allocated object(s) were neither freed, nor part of the result, nor still managed when the collector was destroyed", o.heap.leaked, o.heap.allocated)))
+        Some(("leak:lost-object".into(), format!("{} of {} allocated object(s) are still allocated after the caller has released the value with Object::free_recursive and the collector is gone (and were not managed by it at the end either)", o.heap.leaked, o.heap.allocated)))
     } else if o.heap.left_managed > 0 {
         Some(("leak:managed-at-destroy".into(), format!("{} of {} allocated object(s) were still managed by the collector when it was destroyed and were not freed", o.heap.left_managed, o.heap.allocated)))
     } else {
